@@ -34,6 +34,7 @@ import (
 	"github.com/nuetzliches/hookaido/internal/queue"
 	"github.com/nuetzliches/hookaido/internal/router"
 	"github.com/nuetzliches/hookaido/internal/secrets"
+	"github.com/nuetzliches/hookaido/internal/verifhook"
 	"github.com/nuetzliches/hookaido/internal/workerapi"
 	workerapipb "github.com/nuetzliches/hookaido/internal/workerapi/proto"
 	"google.golang.org/grpc"
@@ -1124,7 +1125,9 @@ func reloadConfig(path string, running config.Compiled, state *runtimeState, log
 		logger.Error("config_reload_failed", slog.Any("err", err), slog.String("trigger", trigger))
 		return running, false
 	}
+	verifhook.Point("reload.after-loadauth")
 	state.updateAll(compiled)
+	verifhook.Point("reload.after-updateall")
 
 	logger.Info("config_reloaded_ok", slog.String("trigger", trigger))
 	return compiled, true
@@ -1185,6 +1188,7 @@ func mutateManagedEndpointConfig(
 	if err := writeFileAtomic(path, formatted); err != nil {
 		return admin.ManagementEndpointMutationResult{}, running, err
 	}
+	verifhook.Point("mgmt.after-write")
 
 	// Re-check invariants after file write but before reload (TOCTOU guard).
 	if result.PostWriteValidate != nil {
@@ -1668,22 +1672,28 @@ func writeFileAtomic(path string, data []byte) error {
 		}
 	}()
 
+	verifhook.Point("app.wfa.created")
 	if err := tmp.Chmod(mode); err != nil {
 		return err
 	}
+	verifhook.Point("app.wfa.chmod")
 	if _, err := tmp.Write(data); err != nil {
 		return err
 	}
+	verifhook.Point("app.wfa.written")
 	if err := tmp.Sync(); err != nil {
 		return err
 	}
+	verifhook.Point("app.wfa.synced")
 	if err := tmp.Close(); err != nil {
 		return err
 	}
+	verifhook.Point("app.wfa.closed")
 	if err := os.Rename(tmpPath, path); err != nil {
 		return err
 	}
 	keepTemp = true
+	verifhook.Point("app.wfa.renamed")
 
 	return syncDir(dir)
 }
